@@ -158,9 +158,9 @@ def check(ctx):
     seg_emit = c.tlc_must_pass(ctx, "someip-seg-alphabet", "PluginsSomeIpSeg.tla", "PluginsSomeIpSeg_emit.cfg", timeout=600, workers=wk)
     emit = c.tlc_must_pass(ctx, "chains", "Plugins.tla", "Plugins_emit.cfg", timeout=600, workers=wk)
     chains = [s["chain"] for s in c.scn_lines(emit)]
-    ftcfgs = sorted(c.scn_lines(emit, tag="FTCFG"), key=lambda x: (x["apid"], x["ctid"]))    # apid x ctid in none|match|other
-    if len(ftcfgs) != 9:
-        raise c.ToolError("expected 9 file transfer configurations from TLC, got %d" % len(ftcfgs))
+    ftcfgs = sorted(c.scn_lines(emit, tag="FTCFG"), key=lambda x: (x["save"], x["apid"], x["ctid"]))    # apid x ctid in none|match|other, x save mode
+    if len(ftcfgs) != 27:
+        raise c.ToolError("expected 27 file transfer configurations from TLC, got %d" % len(ftcfgs))
     chains.sort(key=lambda ch: (len(ch), ch))
     chosen = pick_chains_quick(chains, rnd) if quick else chains
     if quick:       # plus a seeded sample of the remaining chains
@@ -175,7 +175,7 @@ def check(ctx):
         kw["case"] = len(plan)
         kw.setdefault("variant", len(plan))
         if any(k in ("ft_keep", "ft_drop") for k in kw["chain"]):
-            kw.setdefault("ft", ftcfgs[len(plan) % 9])        # rotate through the configuration space
+            kw.setdefault("ft", ftcfgs[len(plan) % 27])        # rotate through the configuration space
         plan.append(kw)
     # the file transfer plugin alone, every apid/ctid configuration x keepFLDA
     for cfg in ftcfgs:
@@ -247,7 +247,7 @@ def check(ctx):
             "text_changed": 0, "ext_filled": 0, "ts_changed": 0, "ids_changed": 0, "pay_changed": 0, "per_kind_text_changed": {},
             "per_kind_chains": {}, "stream_kinds": {}, "flda_inputs": 0, "flda_dropped_cases": 0, "chain_lengths": {},
             "lc_skipped": sum(i["lc_skipped"] for _, i in infos),
-            "matching_variant_inputs": {}, "matching_variant_decoded_alone": {}, "ft_config": {}, "pseudonym_population": {}, "seg_cases": 0, "seg_letters_used": 0,
+            "matching_variant_inputs": {}, "matching_variant_decoded_alone": {}, "ft_config": {}, "ft_save_modes": {}, "big_endian_inputs": 0, "pseudonym_population": {}, "seg_cases": 0, "seg_letters_used": 0,
             "seg_cases_text_rewritten": 0, "seg_zero_chunk_size_then_chunk": 0, "idshape_cases": 0, "idshape_distinct_ecus": 0}
     distinct = set()
     seg_letters = set()
@@ -273,6 +273,9 @@ def check(ctx):
                 return (ft["apid"] == "" or (v["ext"] == 1 and v["apid"] == ft["apid"])) and \
                        (ft["ctid"] == "" or (v["ext"] == 1 and v["ctid"] == ft["ctid"]))
             hits["flda_inputs"] += sum(1 for e in ins if e["fshape"])
+            hits["big_endian_inputs"] += sum(1 for e in ins if e.get("be"))
+            if any(kd.startswith("ft_") for kd in h["chain"]):
+                hits["ft_save_modes"][ft.get("save", "no")] = hits["ft_save_modes"].get(ft.get("save", "no"), 0) + 1
             if h["chain"] in (["ft_drop"], ["ft_keep"]) and h["stream"] == "mixed":
                 ck = "apid=%s,ctid=%s" % (ft["apid"] or "-", ft["ctid"] or "-")
                 outkeys = {(o["vec"]["idx"], o["vec"]["pay"]) for o in outs}
@@ -384,7 +387,7 @@ def check(ctx):
               or (k != "apid=-,ctid=-" and d["flda_of_other_source_passed"] == 0)]
     pp = hits["pseudonym_population"]
     bad_pop = [lv for lv in ("ecu", "apid", "ctid") if lv not in pp or max(pp[lv]["sizes"]) < 257 or pp[lv]["beyond_capacity_cases"] == 0]
-    if len(ftc) != 9 or bad_ft or bad_pop:
+    if len(ftc) != 9 or bad_ft or bad_pop or hits["big_endian_inputs"] == 0 or any(hits["ft_save_modes"].get(m, 0) == 0 for m in ("no", "mem", "auto")):
         raise c.ToolError("vacuous run: file transfer configurations %s %s / pseudonym populations %s %s" % (len(ftc), bad_ft, bad_pop, pp))
     need_var = [t for t in VARIANTS if hits["matching_variant_decoded_alone"].get(t, 0) == 0]
     if need_var:
